@@ -79,19 +79,24 @@ def enumerate_configs(ctx):
 
 
 def pick_quick(cfgs, seed):
+    """quick tier: three fixed NumPy sweeps + one seeded, one Dask sweep (float64: astype(float) is a no-op there) + for
+    the functions whose cast target is float32 also float32 on Dask.  Everything else is the thorough tier's."""
     rest = [(d, l) for d in ["int8", "int16", "int64", "uint8", "uint16", "uint32", "uint64", "float64", "float32", "int32"]
             for l in ["C", "F", "strided", "readonly"]]
-    fixed_np = {("float32", "C"), ("float64", "strided"), ("int32", "F"), ("float32", "readonly")}
-    fixed_da = {("float32", "C"), ("float64", "C"), ("int64", "F")}
+    fixed_np = {("float32", "C"), ("float64", "strided"), ("int32", "readonly")}
+    fixed_da = {("float64", "C")}
     rest = [x for x in rest if x not in fixed_np]
     rnd = random.Random(seed * 101 + 10)
     extra = rnd.choice(rest)
+    full = {("float32", "C"), ("float64", "strided")}      # every function; the other sweeps skip the JIT-heavy ones
+    heavy = {f for f, c in COST.items() if c >= 2.5} | {"viewshed"}
     sel = []
     for c in cfgs:
         key = (c["dtype"], c["layout"])
         if c["backend"] == "numpy" and (key in fixed_np or key == extra):
-            sel.append(c)
-        elif c["backend"] == "dask" and key in fixed_da:
+            if key in full or c["f"] not in heavy:
+                sel.append(c)
+        elif c["backend"] == "dask" and key in fixed_da and c["f"] not in heavy:
             sel.append(c)
     return sel, extra
 
@@ -241,30 +246,31 @@ def model_part(ctx):
     props = ["InputsUntouchedP", "NoAliasP", "IdentityKeptP"]
     ctx.model_check("Aliasing", dict(spec="Spec", invariants=["TypeOK"], properties=props, view="MCView",
                                      constants=mc_constants(maxcalls=ctx.pick(2, 3))), "sessions_2obj", coverage=True)
-    ctx.model_check("Aliasing", dict(spec="Spec", invariants=["TypeOK"], properties=props, view="MCView",
-                                     constants=mc_constants(nobj=1, maxcalls=ctx.pick(3, 4))), "sessions_1obj_deeper")
+    if ctx.tier == "thorough":
+        ctx.model_check("Aliasing", dict(spec="Spec", invariants=["TypeOK"], properties=props, view="MCView",
+                                         constants=mc_constants(nobj=1, maxcalls=4)), "sessions_1obj_deeper")
     # the mechanism perlin has in the code today: rejected by both clauses separately (DESIGN 8 #8)
     for p in ("InputsUntouchedP", "NoAliasP"):
         ctx.model_check("Aliasing", dict(spec="Spec", properties=[p], view="MCView",
-                                         constants=mc_constants(perlin="asis", nobj=1)), "perlin_asis_" + p, expect="violation")
+                                         constants=mc_constants(perlin="asis", nobj=1)), "perlin_asis_" + p, expect="violation", workers=2)
     for mut, prop in TWINS:
         ctx.model_check("Aliasing", dict(spec="Spec", properties=[prop], view="MCView",
-                                         constants=mc_constants(mut=mut)), "neg_" + mut, expect="violation")
+                                         constants=mc_constants(mut=mut)), "neg_" + mut, expect="violation", workers=2)
     # why a fixture of one dtype cannot expose it: the astype twins are invisible when only int32 rasters exist
     for mut in ("astype_noop_return", "astype_noop_inplace"):
         r = ctx.model_check("Aliasing", dict(spec="Spec", properties=props, view="MCView",
-                                             constants=mc_constants(mut=mut, dt={"int32"}, nobj=2, maxcalls=1)), "int32_only_" + mut)
+                                             constants=mc_constants(mut=mut, dt={"int32"}, nobj=2, maxcalls=1)), "int32_only_" + mut, workers=2)
         if not r.ok:
             raise core.MachineryError("astype twin visible on int32-only scope: model no longer dtype dependent")
     # a trim that copies is allowed (the exception permits a view, it does not demand one)
     r = ctx.model_check("Aliasing", dict(spec="Spec", properties=props, view="MCView",
-                                         constants=mc_constants(mut="view_copies", nobj=1)), "view_copies_allowed")
+                                         constants=mc_constants(mut="view_copies", nobj=1)), "view_copies_allowed", workers=2)
     if not r.ok:
         raise core.MachineryError("a copying trim/crop must satisfy the property")
     pc = mc_constants(fm={f for p in PIPELINES for f in p}, maxcalls=3, nobj=2)
     pc["Pipelines"] = core.Raw("{" + ", ".join("<<" + ", ".join('"%s"' % f for f in p) + ">>" for p in PIPELINES) + "}")
     ctx.model_check("Session", dict(spec="SSpec", properties=["SInputsUntouchedP", "SNoAliasP", "SIdentityKeptP"], view="SView",
-                                    constants=pc), "session_pipelines")
+                                    constants=pc), "session_pipelines", workers=4)
     ctx.exhaustive = True
     ctx.extra["t_model_s"] = round(time.time() - ctx.t0)
 
@@ -289,24 +295,28 @@ def replay_part(ctx, rng, focus):
         sel, extra = allcfgs, None
     else:
         sel, extra = pick_quick(allcfgs, ctx.seed)
-        ctx.note("quick tier: sweeps float32/C float64/strided int32/F float32/readonly + seeded %s on numpy; "
-                 "float32/C float64/C int64/F on dask" % (extra,))
+        ctx.note("quick tier: sweeps float32/C, float64/strided (all functions), int32/readonly + seeded %s (without the "
+                 "JIT-heavy functions) on numpy; float64/C (without them) on dask" % (extra,))
     jobs = config_jobs(sel)
     ncfg = len(jobs)
     # other parameter variants of every function (quick: float64/C; thorough: four configurations)
     vsel = (("float64", "C"),) if ctx.tier != "thorough" else (("float32", "C"), ("float64", "F"), ("int16", "strided"), ("float64", "C"))
     for c in allcfgs:
         if (c["dtype"], c["layout"]) in vsel and c["supported"]:
+            if ctx.tier != "thorough" and c["backend"] != "numpy":
+                continue
             for vi in range(1, meta[c["f"]]["nvariants"]):
                 if c["backend"] not in meta[c["f"]]["variant_backends"].get(vi, alias_api.BACKENDS):
                     continue
+                if ctx.tier != "thorough" and c["f"] in ("proximity", "allocation", "direction") and vi not in (1, 3):
+                    continue            # every call of this family re-JITs a closure (0.8 s)
                 jobs.append({"sid": len(jobs), "tag": "variant", "calls": [
                     {"f": c["f"], "variant": vi, "args": None, "dtype": c["dtype"], "layout": c["layout"],
                      "backend": c["backend"]}]})
     nvar = len(jobs) - ncfg
     # ---------------------------------------------------------------- T: call sequences generated by TLC
-    sjobs = session_jobs(ctx, ctx.pick(40, 400), ctx.pick(4, 6), rng, len(jobs))
-    sjobs += session_jobs(ctx, ctx.pick(30, 200), 3, rng, len(jobs) + len(sjobs), pipelines=True)
+    sjobs = session_jobs(ctx, ctx.pick(20, 400), ctx.pick(4, 6), rng, len(jobs))
+    sjobs += session_jobs(ctx, ctx.pick(16, 200), 3, rng, len(jobs) + len(sjobs), pipelines=True)
     if focus:
         sjobs = [j for j in sjobs if any(c["f"] in focus for c in j["calls"])][:12]
     jobs += sjobs
